@@ -6,10 +6,14 @@
 //	pwtranslate -copy <repo>      copy.go of the root package (CopyReader.Read, BinaryCopyReader.fill,
 //	                              take, takeLength, skipHeader, Read): prints Pw/Generated/TransCopy.lean
 //	                              (namespace Pw.TransCopy; imports Trans.lean and calls its definitions)
-//	pwtranslate -o <dir> <repo>   writes both files into <dir> (only when their contents changed)
+//	pwtranslate -error <repo>     the ErrorResponse builder of error.go (writeErrorResponse, ErrorCode) and
+//	                              readyForQuery of handshake.go: prints Pw/Generated/TransError.lean
+//	                              (namespace Pw.TransError; calls the Writer_* definitions of Trans.lean)
+//	pwtranslate -o <dir> <repo>   writes all three files into <dir> (only when their contents changed)
 //
 // main.go holds the translation scheme proper; copy.go holds what is specific to copy.go (loading the
-// root package, the mapping of receivers/fields to the world, the calls it may make).  The Lean theorems of Pw/Props/Tie.lean relate every translated
+// root package, the mapping of receivers/fields to the world, the calls it may make); error.go what is
+// specific to the ErrorResponse builder.  The Lean theorems of Pw/Props/Tie.lean relate every translated
 // function to the hand-written model, so the model's byte-level layer is re-derived from the
 // source on every check run.  Stdlib only (go/parser, go/types with the source importer).
 //
@@ -82,6 +86,11 @@ type tr struct {
 	copy    bool
 	bufFns  map[string]bool // translated functions of pkg/buffer, e.g. "Reader_Slurp"
 	copyFns map[string]bool // functions of copy.go translated so far
+	// error.go mode (see error.go)
+	errm       bool
+	errFns     map[string]bool       // functions of the root package translated so far
+	errArgs    map[types.Object]bool // variables currently holding an `error` handed in by the caller (`ErrArg`)
+	writerVars map[types.Object]bool // parameters of type *buffer.Writer: the world's writer
 }
 
 type loopCtx struct {
@@ -201,6 +210,8 @@ func (t *tr) leanType(ty types.Type) string {
 		return t.errTy()
 	case t.copy && t.copyType(ty) != "":
 		return t.copyType(ty)
+	case t.errm && t.errType(ty) != "":
+		return t.errType(ty)
 	case t.isByteSlice(ty):
 		if t.recvKind == "Reader" && !t.copy {
 			return "Sl"
@@ -374,6 +385,9 @@ func (t *tr) expr(e ast.Expr, p *pre) string {
 			_ = ty
 			fail("bare nil outside a typed context")
 		}
+		if t.errm {
+			t.errIdentUse(e)
+		}
 		return t.ident(e)
 	case *ast.SelectorExpr:
 		if pl, ok := t.place(e); ok {
@@ -387,6 +401,11 @@ func (t *tr) expr(e ast.Expr, p *pre) string {
 		}
 		if t.copy {
 			if r, ok := t.copySelector(e, p); ok {
+				return r
+			}
+		}
+		if t.errm {
+			if r, ok := t.errSelector(e, p); ok {
 				return r
 			}
 		}
@@ -587,7 +606,7 @@ func (t *tr) cond(e ast.Expr, p *pre) string {
 				lt := t.leanType(t.typeOf(e.X))
 				x := t.expr(e.X, p)
 				switch lt {
-				case "Option Err", "Option CErr":
+				case "Option Err", "Option CErr", "Option ErrSource":
 					return "(" + x + op + "none)"
 				case "Sl":
 					if e.Op == token.NEQ {
@@ -636,6 +655,9 @@ func (t *tr) callMulti(c *ast.CallExpr, p *pre) []string {
 		fk, tk := numKind(from), numKind(to)
 		x := t.expr(c.Args[0], p)
 		switch {
+		case isStringType(from) && isStringType(to):
+			// string(v) for v of a named string type (and back): the same bytes
+			return []string{x}
 		case tk == "byte" && fk == "byte":
 			return []string{x}
 		case tk == "byte" && fk != "":
@@ -649,6 +671,11 @@ func (t *tr) callMulti(c *ast.CallExpr, p *pre) []string {
 	}
 	if t.copy {
 		if rs, ok := t.copyCall(c, fun, p); ok {
+			return rs
+		}
+	}
+	if t.errm {
+		if rs, ok := t.errCall(c, fun, p); ok {
 			return rs
 		}
 	}
@@ -865,6 +892,9 @@ func (t *tr) assign(lhs ast.Expr, val string, depth int, out *[]string) {
 	case *ast.Ident:
 		if l.Name == "_" {
 			return
+		}
+		if t.errm {
+			t.errAssigned(l, depth)
 		}
 		*out = append(*out, fmt.Sprintf("%slet %s := %s", ind(depth), t.ident(l), val))
 		return
@@ -1235,6 +1265,7 @@ func (t *tr) function(fd *ast.FuncDecl) (defs string, err string) {
 	t.fnPos = fd.Pos()
 	t.aliasFrame = map[string]bool{}
 	t.usesFuel, t.loopStack, t.labels = false, nil, map[ast.Stmt]string{}
+	t.errArgs, t.writerVars = map[types.Object]bool{}, map[types.Object]bool{}
 	t.nameVars(fd)
 	if fd.Recv != nil {
 		f := fd.Recv.List[0]
@@ -1260,7 +1291,13 @@ func (t *tr) function(fd *ast.FuncDecl) (defs string, err string) {
 			if t.copy && isContext(t.typeOf(f.Type)) {
 				continue // the context is part of the world (`ctx.Err()` = `w.ctxErr`)
 			}
+			if t.errm && t.errParam(n, t.typeOf(f.Type)) {
+				continue // a *buffer.Writer: the writer of the world
+			}
 			lt := t.leanType(t.typeOf(f.Type))
+			if t.errm && isError(t.typeOf(f.Type)) {
+				lt = "ErrArg" // an error value handed in by the caller (see error.go)
+			}
 			sig += fmt.Sprintf(" (%s : %s)", t.ident(n), lt)
 			t.params = append(t.params, param{t.ident(n), lt})
 		}
@@ -1329,6 +1366,9 @@ func main() {
 		case "-copy":
 			mode = "copy"
 			args = args[1:]
+		case "-error":
+			mode = "error"
+			args = args[1:]
 		case "-o":
 			if len(args) < 2 {
 				usage()
@@ -1360,14 +1400,17 @@ func main() {
 		fmt.Print(trans)
 	case "copy":
 		fmt.Print(translateCopy(root, bt))
+	case "error":
+		fmt.Print(translateError(root, bt))
 	case "both":
 		writeIfChanged(filepath.Join(dir, "Trans.lean"), trans)
 		writeIfChanged(filepath.Join(dir, "TransCopy.lean"), translateCopy(root, bt))
+		writeIfChanged(filepath.Join(dir, "TransError.lean"), translateError(root, bt))
 	}
 }
 
 func usage() {
-	fmt.Fprintln(os.Stderr, "usage: pwtranslate [-copy | -o <dir>] <repo>")
+	fmt.Fprintln(os.Stderr, "usage: pwtranslate [-copy | -error | -o <dir>] <repo>")
 	os.Exit(2)
 }
 
